@@ -84,7 +84,8 @@ class Shape:
         else:
             self.ca, self.cb = f('capture_a'), f('capture_b')
             self.custom = {'a': self.ca, 'b': self.cb}
-            self.template = '{b} ({a})'
+            # M2: a template with literal text; M2p: placeholders only, so the description is empty when the captured cells are
+            self.template = '{b} ({a})' if mode == 'M2' else '{b}{a}'
             self.cols += [self.ca, self.cb]
         if self.has_loc:
             self.cols.append(self.lc)
@@ -112,6 +113,8 @@ class Shape:
         r = _Row(r)
         if self.mode == 'M2':
             return z3.Concat(strip(r[self.cb]), z3.StringVal(' ('), strip(r[self.ca]), z3.StringVal(')'))
+        if self.mode == 'M2p':
+            return z3.Concat(strip(r[self.cb]), strip(r[self.ca]))
         return strip(r[self.dsc])
 
     def date_part(self, r):
@@ -244,7 +247,7 @@ def h_rows(mode):
             s = SymSeq([I_.fresh('txns.' + name, z3.SeqSort(sort)) for name, sort, val, ex in cols], None, None, keys=[c[0] for c in cols])
             s.extractors = [c[3] for c in cols]
             return s
-        sp.loops[(fi.qualname, fr.loop_ordinals[id(fors[0])])] = LoopSpec(inv, {'transactions': fresh_txns}, kind='auxiliary', unfold=unfold)
+        sp.loops[(fi.qualname, fr.loop_ordinals[id(fors[0])])] = LoopSpec(inv, {'transactions': fresh_txns}, kind='property', unfold=unfold)     # the statement itself, for the rows read so far
         for n in fors[1:]:
             pass     # inner loops run over concrete dict displays (captures / raw_values): unrolled
         res = I.call_function(fi, ['file.csv', sh.rec(), rules], {'source_name': sh.param_source, 'decimal_separator': sh.sep,
@@ -303,10 +306,11 @@ def h_parse_amount(ctx):
         raise Unsupported('math.isfinite of something other than the parsed number')
     sp.models['math.isfinite'] = Func(m_isfinite)
     fi = find_function(P + 'parse_amount')
-    s0 = strip(cell)
+    # from the statement ("currency symbols and parenthesised negatives understood"): the symbols are dropped wherever they stand - $(5.00), ($5.00),
+    # (5,00) EUR-sign - and what is left is the number, negative when it stands in parentheses
+    s0 = strip(re_sub_cur(cell))
     paren = z3.And(z3.PrefixOf(z3.StringVal('('), s0), z3.SuffixOf(z3.StringVal(')'), s0))
-    inner = z3.If(paren, z3.SubString(s0, 1, z3.Length(s0) - 2), s0)
-    cur = strip(re_sub_cur(inner))
+    cur = z3.If(paren, strip(z3.SubString(s0, 1, z3.Length(s0) - 2)), s0)
     if european:
         # thousands separators of the European notation: period, space, no-break space (U+00A0), narrow no-break space (U+202F)
         clean = cur
@@ -328,7 +332,7 @@ def h_parse_amount(ctx):
 
 
 def harnesses(tier):
-    return [Harness('parse_generic_csv[%s]' % m, h_rows(m), [P + 'parse_generic_csv']) for m in ('M1a', 'M1b', 'M2')] + \
+    return [Harness('parse_generic_csv[%s]' % m, h_rows(m), [P + 'parse_generic_csv']) for m in ('M1a', 'M1b', 'M2', 'M2p')] + \
            [Harness('parse_amount', h_parse_amount, [P + 'parse_amount'])]
 
 
